@@ -22,6 +22,7 @@ import Mathlib.Data.List.Nodup
 import Mathlib.Data.List.Perm.Subperm
 import Mathlib.Data.List.Count
 import Mathlib.Tactic.Linarith
+import Mathlib.Tactic.Ring
 
 namespace Onsager.C27
 open Onsager.C28 (Cell Err Inv imul reorder saneB)
@@ -778,5 +779,107 @@ example : reorder (imul exVac1 [1, 0]) [[0]] = .ok exVac0 := by decide
 example : defKeys (exCtx false) exVac1.occ ≠ [] := by decide
 example : equivalencemap (exCtx false) [[0, 1], [1, 0]] exFull exFull = .error .value := by decide
 example : equivalencemap (exCtx true) [[0, 1], [1, 0]] exFull exFull = .ok (some (0, [[0, 1]])) := by decide
+
+/-! ### `gengroup`: every generated op is a permutation of the sites -/
+
+theorem mapE_spec {α β ε} (f : α → Except ε β) (l : List α) (r : List β) (h : mapE f l = .ok r) :
+    r.length = l.length ∧ ∀ y ∈ r, ∃ x ∈ l, f x = .ok y := by
+  induction l generalizing r with
+  | nil => simp [mapE] at h; subst h; simp
+  | cons x xs ih =>
+    simp only [mapE] at h
+    split at h
+    · cases h
+    · rename_i y hy
+      split at h
+      · cases h
+      · rename_i ys hys
+        simp only [Except.ok.injEq] at h
+        subst h
+        obtain ⟨hl, hm⟩ := ih ys hys
+        refine ⟨by simp [hl], ?_⟩
+        intro z hz
+        rcases List.mem_cons.1 hz with rfl | hz
+        · exact ⟨x, List.mem_cons_self, hy⟩
+        · obtain ⟨x', hx', hfx'⟩ := hm z hz
+          exact ⟨x', List.mem_cons_of_mem _ hx', hfx'⟩
+
+/-- The index map computed for one op passes the source's test `len(set(indexmap)) == N*size`; together with
+    the shape of the construction (one entry per cell and atom, each `transdict[..]*N + a'`) it is a
+    permutation of `0 … N*size-1`. -/
+theorem indexmapOf_isPerm (N : Nat) (T : Trans) (unittrans : List V3) (g0 : CrysOp) (u : V3) (im : List Nat)
+    (hT : T.translist.length = T.size) (hu : unittrans.length = T.size)
+    (hat : g0.atoms.length = N) (hrange : ∀ ad ∈ g0.atoms, ad.1 < N)
+    (h : indexmapOf N T unittrans g0 u = .ok im) : IsPerm (N * T.size) im := by
+  unfold indexmapOf at h
+  split at h
+  · cases h
+  · rename_i l hl
+    split at h
+    · cases h
+    · rename_i hd
+      simp only [Except.ok.injEq] at h
+      subst h
+      obtain ⟨hlen, hmem⟩ := mapE_spec _ _ _ hl
+      have hlen' : l.length = N * T.size := by
+        rw [hlen, List.length_flatMap]
+        simp [hat, hu, Nat.mul_comm]
+      refine ⟨hlen', nodup_of_distinct_length l (by rw [hlen']; simpa using hd), ?_⟩
+      intro x hx
+      obtain ⟨p, hp, hfp⟩ := hmem x hx
+      obtain ⟨R, _, hp2⟩ := List.mem_flatMap.1 hp
+      obtain ⟨ad, had, rfl⟩ := List.mem_map.1 hp2
+      simp only [siteImage] at hfp
+      split at hfp
+      · rename_i hc
+        simp only [Except.ok.injEq] at hfp
+        subst hfp
+        have hmemk : (mulVec T.invsuper (vadd (vadd (mulVec g0.rot R) ad.2) u)).map (· % (T.size : Int))
+            ∈ T.translist := by simpa using hc
+        have h1 := List.idxOf_lt_length_of_mem hmemk
+        rw [hT] at h1
+        have h2 := hrange ad had
+        generalize T.translist.idxOf ((mulVec T.invsuper (vadd (vadd (mulVec g0.rot R) ad.2) u)).map
+          (· % (T.size : Int))) = k at h1 ⊢
+        have h3 : (k + 1) * N ≤ T.size * N := Nat.mul_le_mul_right N h1
+        have h4 : (k + 1) * N = k * N + N := by ring
+        have h5 : T.size * N = N * T.size := Nat.mul_comm _ _
+        omega
+      · cases hfp
+
+theorem maketrans_length (S : M3) (T : Trans) (h : maketrans S = .ok T) : T.translist.length = T.size := by
+  unfold maketrans at h
+  split at h
+  · cases h
+  · split at h
+    · cases h
+    · rename_i hl
+      simp only [Except.ok.injEq] at h
+      subst h
+      simpa using hl
+
+/-- **Every op produced by `gengroup` permutes the sites.** -/
+theorem gengroupOp_perms (S : M3) (N : Nat) (T : Trans) (g0 : CrysOp) (ops : List SuperOp)
+    (hT : maketrans S = .ok T) (hat : g0.atoms.length = N) (hrange : ∀ ad ∈ g0.atoms, ad.1 < N)
+    (h : gengroupOp S N T g0 = .ok (some ops)) : ∀ g ∈ ops, IsPerm (N * T.size) g.indexmap := by
+  have hTl := maketrans_length S T hT
+  unfold gengroupOp at h
+  simp only at h
+  split at h
+  · cases h
+  · split at h
+    · cases h
+    · rename_i l hl
+      simp only [Except.ok.injEq, Option.some.injEq] at h
+      subst h
+      intro g hg
+      obtain ⟨_, hmem⟩ := mapE_spec _ _ _ hl
+      obtain ⟨u, _, hfu⟩ := hmem g hg
+      split at hfu
+      · cases hfu
+      · rename_i im him
+        simp only [Except.ok.injEq] at hfu
+        subst hfu
+        exact indexmapOf_isPerm N T (unitTrans S T) g0 u im hTl (by simp [unitTrans, hTl]) hat hrange him
 
 end Onsager.C27
